@@ -92,6 +92,7 @@ fn say(s: &str) {
 pub fn run_b(path: &str, dir: &str, part: &str) {
     let cases = read_cases(path);
     let case = &cases[0];
+    print_load_order(dir);
     let mut st = match startup(dir) {
         Ok(s) => s,
         Err(_) => {
@@ -141,6 +142,7 @@ pub fn run_b(path: &str, dir: &str, part: &str) {
                 }
             }
             "flush" => {
+                eprintln!("#flush");
                 let dbs = st.dbs.clone();
                 match std::panic::catch_unwind(std::panic::AssertUnwindSafe(|| snapshot_all_pendding_dbs(&dbs))) {
                     Ok(_) => "Flushed".to_string(),
@@ -164,7 +166,27 @@ pub fn run_b(path: &str, dir: &str, part: &str) {
     say("END");
 }
 
+pub fn print_load_order(dir: &str) {
+    let lo = crate::disk::load_order(dir);
+    eprintln!("#load {}", lo.iter().map(|k| hex(k.as_bytes())).collect::<Vec<String>>().join(" "));
+}
+
+/// C11: restart on the directory and print the node dump in the disk driver's format
+pub fn run_c11(dir: &str) {
+    print_load_order(dir);
+    match startup(dir) {
+        Err(_) => say("START PANIC"),
+        Ok(st) => {
+            let (_s, r): (Sender<String>, Receiver<String>) = channel(10);
+            let node = crate::node::Node { dbs: st.dbs.clone(), sup_rx: st._sup_rx, repl_rx: r, sessions: Vec::new() };
+            say(&format!("START valid={}", if st.was_valid { 1 } else { 0 }));
+            say(&format!("D {} {}", crate::node::safe_dump(&node, true), crate::disk::files_digest(dir)));
+        }
+    }
+}
+
 pub fn run_c(dir: &str) {
+    print_load_order(dir);
     match startup(dir) {
         Err(_) => say("START PANIC"),
         Ok(st) => {
@@ -229,7 +251,7 @@ pub fn run_c(dir: &str) {
                 Ok(s) => say(&format!("DUMP {}", s)),
                 Err(_) => say("DUMP PANIC"),
             }
-            say(&format!("FILES {}", crate::disk::files_digest(dir)));
+            say(&format!("FILES {}", crate::disk::files_digest_sel(dir, true)));
         }
     }
 }
